@@ -896,12 +896,15 @@ static const unsigned HSVC[] = {
         VBI_SLICED_WSS_625, VBI_SLICED_CAPTION_625_F1, VBI_SLICED_CAPTION_625_F2, VBI_SLICED_CAPTION_625,
 };
 #define NHSVC ((int)(sizeof HSVC / sizeof *HSVC))
-#define NHLET (2 * NHSVC + 5)          /* add x9, remove x9, reset, resize, change the field storage mode, decode a blank frame, decode the reference frame */
+#define NHLET (2 * NHSVC + 6)          /* add x9, remove x9, decode the frame with other services on two lines, reset, resize, change the field storage mode, decode a blank frame, decode the reference frame */
 static const char *hsvc_name[] = { "B_L10", "B_L25", "B", "VPS", "VPS_F2", "WSS", "CC_F1", "CC_F2", "CC_625" };
 static struct frame HF;         /* reference frame: every service on its own line */
 static struct frame HFI, HBLI; /* both frames stored interlaced (letter "reconfigure": the same parameters with interlaced toggled) */
 static struct frame HBL;        /* the same geometry, every line blank: no record, and the frames after it decode as before
                                    (the decoder predicts lines as blank and skips them for up to 15 frames) */
+static struct frame HF2, HF21;  /* the reference frame with Teletext instead of VPS on lines 16 and 329 (full and short window): a scan line
+                                   carries different services in different frames of one decoder (seed C04-12: the "try the found service
+                                   first next time" reordering dropped the other candidate of the line for good) */
 static struct frame HF1, HBL1;  /* letter "resize": the same transmissions in a window whose second field is 6 lines shorter (318..329);
                                    only count[1] differs, the field compared last by vbi_raw_decoder_resize() */
 
@@ -913,6 +916,7 @@ static const char *hist_letter(int l, void *arg)
         if (l == NHLET - 3) return "set_sampling_par: sequential <-> interlaced";
         if (l == NHLET - 4) return "resize: second field 12 <-> 18 lines";
         if (l == NHLET - 5) return "reset";
+        if (l == NHLET - 6) return "decode frame with Teletext on the VPS lines";
         snprintf(b, sizeof b, "%s %s", l < NHSVC ? "add" : "remove", hsvc_name[l % NHSVC]);
         return b;
 }
@@ -936,6 +940,16 @@ static void hist_frame(void)
         if (!frame_render(&HBL, 0)) { fprintf(stderr, "C04: cannot render the blank history frame\n"); exit(2); }
         HFI = HF; HFI.raw = NULL; HFI.gsp.interlaced = TRUE; HBLI = HBL; HBLI.raw = NULL; HBLI.gsp.interlaced = TRUE;
         if (!frame_render(&HFI, 0) || !frame_render(&HBLI, 0)) { fprintf(stderr, "C04: cannot render the interlaced history frames\n"); exit(2); }
+        memset(&HF2, 0, sizeof HF2); HF2.gsp = HF.gsp;
+        for (int i = 0; i < HF.ntx; i++) {
+                HF2.tx[HF2.ntx] = HF.tx[i];
+                if (HF.tx[i].line == 16 || HF.tx[i].line == 329) { HF2.tx[HF2.ntx].s = B; HF2.tx[HF2.ntx].id = B->id; }
+                HF2.ntx++;
+        }
+        if (!frame_render(&HF2, 0)) { fprintf(stderr, "C04: cannot render the second history frame\n"); exit(2); }
+        memset(&HF21, 0, sizeof HF21); HF21.gsp = HF.gsp; HF21.gsp.count[1] = 12;
+        for (int i = 0; i < HF2.ntx; i++) if (HF2.tx[i].field == 0 || HF2.tx[i].line < 318 + 12) HF21.tx[HF21.ntx++] = HF2.tx[i];
+        if (!frame_render(&HF21, 0)) { fprintf(stderr, "C04: cannot render the second short history frame\n"); exit(2); }
         memset(&HF1, 0, sizeof HF1); HF1.gsp = HF.gsp; HF1.gsp.count[1] = 12;
         for (int i = 0; i < HF.ntx; i++) if (HF.tx[i].field == 0 || HF.tx[i].line < 318 + 12) HF1.tx[HF1.ntx++] = HF.tx[i];
         memset(&HBL1, 0, sizeof HBL1); HBL1.gsp = HF1.gsp;
@@ -985,6 +999,18 @@ static int hist_run(const uint8_t *h, int n, uint64_t hash[2], void *arg)
                         want &= ~HSVC[l - NHSVC];
                         G = legacy ? vbi_raw_decoder_remove_services(&lrd, HSVC[l - NHSVC]) : vbi3_raw_decoder_remove_services(rd, HSVC[l - NHSVC]);
                         if (want & VBI_SLICED_TELETEXT_B) want |= G & VBI_SLICED_TELETEXT_B;      /* while a B level is wanted, the levels reported as decoded are what the caller gets */
+                }
+                else if (l == NHLET - 6) {
+                        if (il) continue;               /* rendered for sequential storage only */
+                        unsigned clo = want | ((want & VBI_SLICED_TELETEXT_B) ? VBI_SLICED_TELETEXT_B : 0);
+                        struct hist_exp x = { G & want, small ? &HF21 : &HF2 }; struct expect e[MAXROWS];
+                        int ne = hist_expect(&x, 0, e);
+                        memset(out, CANARY, 39 * sizeof *out);
+                        const uint8_t *img = small ? HF21.raw : HF2.raw;
+                        unsigned cnt = legacy ? (unsigned) vbi_raw_decode(&lrd, (uint8_t *) img, out) : vbi3_raw_decoder_decode(rd, out, 36, img);
+                        if (!check_records(entry, &c, e, ne, out, cnt, 39, clo)) bad = 1;
+                        mc_count("evaluations", 1);
+                        continue;
                 }
                 else if (l == NHLET - 5) {
                         /* all services are dropped, the parameters stay; what is added afterwards is decoded as on a new decoder
@@ -1136,7 +1162,7 @@ int main(int argc, char **argv)
         mc_meta("rule", "one evaluation = one scan line (or one blank frame) through one entry point, compared record by record (count, id, ITU line, payload bits, canary records behind the returned count); distinct = one (waveform, sampling rate) work unit of slicer-grid, one (service set, line layout) unit of layout, one 1/64 payload range of all-payloads, one canonical decoder state of history; every unit decodes at least one transmitted line, refused configurations are counted as outcomes and not as evaluations of the value oracle");
         char gb[1400]; int o = 0;
         for (int w = 0; w < NWAVE; w++) o += snprintf(gb + o, sizeof gb - o, "%s%s %d rates %.3f-40 MHz", w ? ", " : "", SV[WAVE[w]].name, nrates[w], rates[w][0] / 1e6);
-        mc_meta("bound", "GRID, not a continuum. slicer-grid: 11 waveforms x sampling rates {uniform %d kHz steps from the property's minimum to 40 MHz} + {both edges of constant slicer step floor(256*rate/bit_rate), every %s} + 18 standard rates [%s] x samples_per_line {minimum holding the signal, +1, +7, first multiple of 720, 2048, one line period} x offset {earliest, middle, latest keeping the signal inside} x YUV420 with VBI levels at every rate and %d pixel formats (video levels, luma/green only, other channels garbage) at every 4th rate on every %s geometry x %d payloads per frame (all cyclic shifts of de Bruijn B(2,%d), all-0, all-1, single 1, single 0, 00/FF, 55, AA, 0F, walking 1) + blank lines. layout: %d service sets x 5 line layouts x sequential/interlaced x 4 transmit patterns x synchronous(known x unknown start per field)/non-synchronous x strict 0,1,2 x %d rates (13.5 MHz/720, 27 MHz/1440%s) x YUV420 + one rotating format. all-payloads: all 2^16 Caption 625, Caption 525 and all 2^14 WSS payloads at %d rates each. history: depth %d over 23 letters (decode of a blank frame; reset; resize of the second field; set_sampling_par toggling sequential/interlaced; add/remove of B_L10, B_L25, B, VPS, VPS_F2, WSS, CC_F1, CC_F2, CC_625; decode), both interfaces",
+        mc_meta("bound", "GRID, not a continuum. slicer-grid: 11 waveforms x sampling rates {uniform %d kHz steps from the property's minimum to 40 MHz} + {both edges of constant slicer step floor(256*rate/bit_rate), every %s} + 18 standard rates [%s] x samples_per_line {minimum holding the signal, +1, +7, first multiple of 720, 2048, one line period} x offset {earliest, middle, latest keeping the signal inside} x YUV420 with VBI levels at every rate and %d pixel formats (video levels, luma/green only, other channels garbage) at every 4th rate on every %s geometry x %d payloads per frame (all cyclic shifts of de Bruijn B(2,%d), all-0, all-1, single 1, single 0, 00/FF, 55, AA, 0F, walking 1) + blank lines. layout: %d service sets x 5 line layouts x sequential/interlaced x 4 transmit patterns x synchronous(known x unknown start per field)/non-synchronous x strict 0,1,2 x %d rates (13.5 MHz/720, 27 MHz/1440%s) x YUV420 + one rotating format. all-payloads: all 2^16 Caption 625, Caption 525 and all 2^14 WSS payloads at %d rates each. history: depth %d over 24 letters (decode of a blank frame; decode of a frame with Teletext on the VPS lines; reset; resize of the second field; set_sampling_par toggling sequential/interlaced; add/remove of B_L10, B_L25, B, VPS, VPS_F2, WSS, CC_F1, CC_F2, CC_625; decode), both interfaces",
                 thorough ? 25 : 250, thorough ? "step value up to 1500 per waveform" : "n-th step value (160 per waveform)", gb,
                 thorough ? NFMT_ALL : NFMT_QUICK, thorough ? "2nd" : "3rd", npay, thorough ? 5 : 3, NSETS, thorough ? 3 : 2, thorough ? ", 35.46895 MHz/2048" : "", thorough ? 4 : 2, thorough ? 5 : 4);
         mc_meta("assume", "sampling rates between grid points, offsets between the three per geometry and samples_per_line values other than the six listed are not covered");
